@@ -1,8 +1,8 @@
-(* C16 proofs, part b: the repaired machine (cfg_fixed) refines the brute force specification for every
+(* C16 proofs, part b: the repaired machine (cfg_ref) refines the brute force specification for every
    operation history; refutations for the machine as the code is at HEAD (cfg_head). *)
 From Coq Require Import ZArith List Bool Lia Permutation Sorted.
 Import ListNotations.
-From SCMO Require Import Model.C16 Proofs.C16_a.
+From SCMO Require Import Gen.GenFeatures Model.C16 Proofs.C16_a.
 Open Scope Z_scope.
 
 (* ------------------------------------------------------------------ the lru cache *)
@@ -249,9 +249,9 @@ Qed.
 
 Lemma do_sort_ok st all :
   NoDup (keys (st_contigs st)) -> rel (st_contigs st) all -> all_wf all ->
-  exists st', do_sort cfg_fixed st = (st', None) /\ Inv st' all /\ st_sorted st' = true.
+  exists st', do_sort cfg_ref st = (st', None) /\ Inv st' all /\ st_sorted st' = true.
 Proof.
-  intros Hnd Hrel Hwf. unfold do_sort. cbn [fix_clear cfg_fixed].
+  intros Hnd Hrel Hwf. unfold do_sort. cbn [fix_clear cfg_ref].
   set (cs := st_contigs st) in *.
   destruct (sort_contigs_ok (answer (build_all cs)) cs []) as [m' [E Hok]].
   - intros c r Hin. destruct (rel_facts cs all c r Hrel Hwf Hnd Hin) as [H1 H2].
@@ -273,7 +273,7 @@ Qed.
 
 Lemma ensure_sorted_ok st all :
   Inv st all -> all_wf all ->
-  exists st', ensure_sorted cfg_fixed st = (st', None) /\ Inv st' all /\ st_sorted st' = true /\
+  exists st', ensure_sorted cfg_ref st = (st', None) /\ Inv st' all /\ st_sorted st' = true /\
               (st_sorted st = true -> st' = st).
 Proof.
   intros Hinv Hwf. unfold ensure_sorted. destruct (st_sorted st) eqn:Es.
@@ -285,10 +285,10 @@ Qed.
 (* findFeaturesAt through the cache *)
 Lemma at_cached_ok st all k :
   Inv st all -> all_wf all ->
-  exists st', at_cached cfg_fixed st k = (st', ROk (answer (st_contigs st') k)) /\ Inv st' all /\
+  exists st', at_cached cfg_ref st k = (st', ROk (answer (st_contigs st') k)) /\ Inv st' all /\
               st_sorted st' = true /\ (st_sorted st = true -> st_contigs st' = st_contigs st).
 Proof.
-  intros Hinv Hwf. unfold at_cached.
+  intros Hinv Hwf. unfold at_cached. rewrite autosort_at_shape.
   destruct (memo_find k (st_memo st)) as [v|] eqn:Ef.
   - destruct (st_sorted st) eqn:Es.
     + destruct (inv_sorted _ _ Hinv Es) as [Hwb Hok].
@@ -360,10 +360,10 @@ Definition between_pure (cs : list (Z * crec)) (c a b q : Z) : list feat :=
 
 Lemma between_run st all c a b q :
   Inv st all -> all_wf all ->
-  exists st', between cfg_fixed st c a b q = (st', ROk (between_pure (st_contigs st') c a b q)) /\
+  exists st', between cfg_ref st c a b q = (st', ROk (between_pure (st_contigs st') c a b q)) /\
               Inv st' all /\ st_sorted st' = true /\ (st_sorted st = true -> st_contigs st' = st_contigs st).
 Proof.
-  intros Hinv Hwf. unfold between. cbn [fix_autosort cfg_fixed].
+  intros Hinv Hwf. unfold between. cbn [fix_autosort cfg_ref].
   destruct (ensure_sorted_ok st all Hinv Hwf) as [st1 [E [Hi1 [Hs1 Hsame]]]]. rewrite E.
   unfold between_pure.
   destruct (find_contig c (st_contigs st1)) as [r|] eqn:Ef.
@@ -440,9 +440,9 @@ Proof. unfold hit_between. rewrite andb_true_iff, overlap_spec. tauto. Qed.
 
 Lemma blocks_ok st all c bl q meth :
   Inv st all -> all_wf all -> (forall a b, In (a, b) bl -> a < b) ->
-  exists st' l, blocks cfg_fixed st c bl q meth = (st', ROk l) /\ Inv st' all /\ blocks_spec all c bl q l.
+  exists st' l, blocks cfg_ref st c bl q meth = (st', ROk l) /\ Inv st' all /\ blocks_spec all c bl q l.
 Proof.
-  intros Hinv Hwf Hbl. unfold blocks. cbn [fix_autosort fix_halfopen cfg_fixed].
+  intros Hinv Hwf Hbl. unfold blocks. cbn [fix_autosort fix_halfopen cfg_ref].
   destruct (ensure_sorted_ok st all Hinv Hwf) as [st1 [E [Hi1 [Hs1 _]]]]. rewrite E.
   assert (Hempty : find_contig c (st_contigs st1) = None -> blocks_spec all c bl q []).
   { intros Ef. pose proof (inv_rel _ _ Hi1 c) as Hrel. unfold cfeats in Hrel. rewrite Ef in Hrel.
@@ -456,7 +456,7 @@ Proof.
   assert (HP1 : P st1) by (unfold P; auto).
   destruct (meth =? 0).
   - (* every aligned base *)
-    destruct (fold_q_ok (fun s p => at_cached cfg_fixed s (c, p, q, 0)) (fun p => answer cs (c, p, q, 0)) P) with
+    destruct (fold_q_ok (fun s p => at_cached cfg_ref s (c, p, q, 0)) (fun p => answer cs (c, p, q, 0)) P) with
         (xs := block_positions bl) (st := st1) (acc := @nil feat) as [st2 [E2 [Hi2 [Hs2 Hc2]]]]; [|exact HP1|].
     + intros s p [Hi [Hs Hc]]. destruct (at_cached_ok s all (c, p, q, 0) Hi Hwf) as [s' [Es [Hi' [Hs' Hc']]]].
       exists s'. rewrite Es, (Hc' Hs), Hc. split; [reflexivity|]. unfold P. rewrite (Hc' Hs). auto.
@@ -470,19 +470,22 @@ Proof.
         -- apply block_positions_In. exists a, b. auto.
         -- unfold cs. rewrite (answer_In st1 all c p q 0 f Hi1 Hs1) by auto. split; [exact Hf1|].
            apply hit_split. auto.
-  - (* every block, closed end = half open end - 1 *)
-    destruct (fold_q_ok (fun s p => between cfg_fixed s c (fst p) (snd p - 1) q)
-                        (fun p => between_pure cs c (fst p) (snd p - 1) q) P) with
+  - (* every block, closed end = half open end - 1 (g_block_end of the current source) *)
+    destruct (fold_q_ok (fun s p => between cfg_ref s c (g_block_start (fst p) (snd p)) (g_block_end (fst p) (snd p)) q)
+                        (fun p => between_pure cs c (g_block_start (fst p) (snd p)) (g_block_end (fst p) (snd p)) q) P) with
         (xs := bl) (st := st1) (acc := @nil feat) as [st2 [E2 [Hi2 [Hs2 Hc2]]]]; [|exact HP1|].
-    + intros s p [Hi [Hs Hc]]. destruct (between_run s all c (fst p) (snd p - 1) q Hi Hwf) as [s' [Es [Hi' [Hs' Hc']]]].
+    + intros s p [Hi [Hs Hc]].
+      destruct (between_run s all c (g_block_start (fst p) (snd p)) (g_block_end (fst p) (snd p)) q Hi Hwf) as [s' [Es [Hi' [Hs' Hc']]]].
       exists s'. rewrite Es, (Hc' Hs), Hc. split; [reflexivity|]. unfold P. rewrite (Hc' Hs). auto.
     + rewrite E2. eexists. eexists. split; [reflexivity|]. split; [exact Hi2|].
       split; [apply dedup_NoDup|]. intros f. cbn [app]. rewrite dedup_In, in_flat_map. split.
-      * intros [[a b] [Hab Hf]]. cbn [fst snd] in Hf. specialize (Hbl a b Hab).
+      * intros [[a b] [Hab Hf]]. cbn [fst snd] in Hf. rewrite block_start_shape, block_end_shape in Hf.
+        specialize (Hbl a b Hab).
         unfold cs in Hf. rewrite (between_pure_In st1 all c a (b - 1) q f Hi1 Hs1) in Hf by lia.
         destruct Hf as [Hf1 Hf2]. apply hit_between_split in Hf2. destruct Hf2 as [Hf2 Hf3].
         split; [exact Hf1|]. split; [exact Hf3|]. exists a, b, (Z.max a (f_start f)). split; [exact Hab|]. lia.
       * intros [Hf1 [Hf3 [a [b [p [Hab [Hp Hf2]]]]]]]. exists (a, b). split; [exact Hab|]. cbn [fst snd].
+        rewrite block_start_shape, block_end_shape.
         unfold cs. rewrite (between_pure_In st1 all c a (b - 1) q f Hi1 Hs1) by lia. split; [exact Hf1|].
         apply hit_between_split. split; [lia | exact Hf3].
 Qed.
@@ -532,13 +535,13 @@ Qed.
 
 Lemma step_ok st all o :
   Inv st all -> all_wf all -> op_wfb o = true -> all_wf (abs_step all o) ->
-  exists st' r, step cfg_fixed st o = (st', r) /\ Inv st' (abs_step all o) /\ ans_ok all o r.
+  exists st' r, step cfg_ref st o = (st', r) /\ Inv st' (abs_step all o) /\ ans_ok all o r.
 Proof.
   intros Hinv Hwf Hop Hwf'. destruct o as [c f| |c x q o|c a b q|c bl q meth]; cbn [step abs_step] in *.
   - (* addFeature *)
     destruct (strand_ok f) eqn:Es.
     + eexists. eexists. split; [reflexivity|]. split; [|cbn; auto].
-      constructor; cbn [st_contigs st_sorted st_memo fix_clear cfg_fixed].
+      constructor; cbn [st_contigs st_sorted st_memo fix_clear cfg_ref].
       * apply nodup_add. exact (inv_nodup _ _ Hinv).
       * intros c0. rewrite feats_of_app. destruct (Z.eq_dec c0 c) as [->|Hne].
         -- rewrite cfeats_add_same. unfold feats_of at 2. cbn. rewrite Z.eqb_refl. cbn.
@@ -573,7 +576,7 @@ Proof.
 Qed.
 
 Lemma history_gen ops : forall st all,
-  Inv st all -> all_wf all -> hist_wf all ops -> trace_ok all ops (run_ops cfg_fixed st ops).
+  Inv st all -> all_wf all -> hist_wf all ops -> trace_ok all ops (run_ops cfg_ref st ops).
 Proof.
   induction ops as [|o t IH]; intros st all Hinv Hwf Hh; cbn [run_ops trace_ok]; [exact I|].
   destruct Hh as [Hop [Hwf' Hh]].
@@ -614,7 +617,7 @@ Qed.
 
 Theorem history ops : hist_wfb ops = true -> trace_ok [] ops (run_ops cfg_fixed init ops).
 Proof.
-  intros H. unfold hist_wfb in H. apply andb_true_iff in H. destruct H as [H1 H2].
+  rewrite cfg_fixed_shape. intros H. unfold hist_wfb in H. apply andb_true_iff in H. destruct H as [H1 H2].
   apply orderableb_P in H2. unfold final_all in H2.
   apply history_gen; [apply inv_init | split; [intros p [] | intros p p' []] |].
   apply hist_wfb_gen; [exact H1 | exact H2 | intros p []].
